@@ -348,7 +348,9 @@ def dict_case(draw, tier):
         key = 'wide' if 'wide' not in have else 'wide_%d' % len(have)
         root['items'].append([key, {'t': 'dict', 'items': [['w%02d' % i, draw(structure(lays, small=True))] for i in range(nw)]}])
     tr = {'how': 'dict', 'gz': draw(st.booleans()), 'indent': draw(st.sampled_from([1, 1, 0, None])), 'full': draw(st.booleans()),
-          'desc': draw(st.one_of(st.just(''), _text(10))), 'ext': draw(st.sampled_from(['', '.json']))}
+          'desc': draw(st.one_of(st.just(''), _text(10))), 'ext': draw(st.sampled_from(['', '.json'])),
+          # the documented placeholder option (alphanumeric text), None = default
+          'reps': draw(st.sampled_from([None, None, 'XOBS', 'P', 'placeholder', 'dictobs']))}
     return {'layouts': lays, 'root': root, 'tr': tr}
 
 
@@ -862,17 +864,19 @@ def dict_oracle(spec):
     od, exp = build_node(ctx, spec['root'])
     with tempfile.TemporaryDirectory(prefix='c11_') as tmp:
         base = os.path.join(tmp, 'd' + tr['ext'])
-        pj.dump_dict_to_json(od, base, description=tr['desc'], indent=tr['indent'], gz=tr['gz'])
+        rk = {'reps': tr['reps']} if tr.get('reps') else {}
+        pj.dump_dict_to_json(od, base, description=tr['desc'], indent=tr['indent'], gz=tr['gz'], **rk)
         files = os.listdir(tmp)
         require(len(files) == 1, 'dump_dict_to_json created %r' % files)
         text = read_text(os.path.join(tmp, files[0]))
-        got = pj.load_json_dict(base, verbose=False, gz=tr['gz'], full_output=tr['full'])
+        got = pj.load_json_dict(base, verbose=False, gz=tr['gz'], full_output=tr['full'], **rk)
     validate_document(text, 'dump_dict_to_json')
     if tr['full']:
         require(isinstance(got, dict) and 'obsdata' in got, 'full_output=True did not return a dictionary with obsdata')
         got = got['obsdata']
     compare(exp, got, 'dict', ctx)
-    return result(ctx, ['via:dict', 'gz:%s' % tr['gz'], 'indent:%r' % (tr['indent'],)] + (['full_output'] if tr['full'] else []))
+    return result(ctx, ['via:dict', 'gz:%s' % tr['gz'], 'indent:%r' % (tr['indent'],)] + (['full_output'] if tr['full'] else [])
+                  + (['reps:custom'] if tr.get('reps') else []))
 
 
 def frame_oracle(spec):
